@@ -28,6 +28,8 @@ def _innermost_in_file(span, fname):
 
 def classify_message(msg):
     m = msg.lower()
+    if "post-condition of closure" in m or "postcondition of closure" in m:
+        return "closure-post"
     if "postcondition not satisfied" in m:
         return "post"
     if "precondition not satisfied" in m:
@@ -145,6 +147,8 @@ def analyse(meta, run, gen_path):
         ext_clause = False
         for lab, sp, inner in labels:
             if lab and ("failed precondition" in lab or "failed this postcondition" in lab):
+                if kind == "closure-post" and inner is not None:
+                    tags += tags_on_lines(inner["line_start"], inner["line_end"])
                 if inner is not None and os.path.basename(sp.get("file_name", "")) == fname:
                     tags += tags_on_lines(inner["line_start"], inner["line_end"])
                     clause = b"\n".join(gen_lines[inner["line_start"] - 1:inner["line_end"]]).decode(errors="replace").strip()[:300]
@@ -154,6 +158,8 @@ def analyse(meta, run, gen_path):
         if kind in ("inv", "hint") and prim is not None:
             tags += tags_on_lines(prim["line_start"], prim["line_end"])
             clause = b"\n".join(gen_lines[prim["line_start"] - 1:prim["line_end"]]).decode(errors="replace").strip()[:300]
+        if kind == "closure-post":
+            kind = "inv"      # an internal obligation: the contract spliced onto a closure literal
         if kind == "pre":
             if ext_clause or "panic" in tags or clause is None:
                 kind = "panic"
